@@ -76,7 +76,7 @@ fn main() {
                 }
                 report.insert("arith".into(), serde_json::Value::Object(unit));
             }
-            "rbtree" | "bins" | "traverser" | "ops" | "rmlist" | "iternext" | "wrap" | "setrel" | "split" => {
+            u2 if u2 != "effect" && verif.join("specs").join(format!("{}.vrs", u2)).exists() => {
                 let tp = verif.join("specs").join(format!("{}.vrs", u));
                 let template = std::fs::read_to_string(&tp).unwrap_or_default();
                 let g = arena::generate(&idx, &template);
